@@ -453,9 +453,13 @@ def read_response(data, end="fin", method="GET", max_header_size=65536, max_body
                 return res.fail("reject", "decoded_body_too_large")
         elif res.framing != "none":
             res.either.add("gzip_empty_body")
-    if res.framing == "close" and max_body_size is not None and len(body) > max_body_size:
+    if res.framing == "close" and max_body_size is not None:
         # no framing header to check up front: the limit applies to what is delivered
-        return res.fail("reject", "body_too_large")
+        if len(body) > max_body_size:
+            return res.fail("reject", "body_too_large")
+        if len(raw) > max_body_size:
+            # only the encoded form is over the limit: a recipient may refuse it too
+            res.either.add("encoded_body_over_limit")
     res.body = body
     res.kind = "ok"
     return res
